@@ -46,7 +46,8 @@ InitState(dbInit) ==
   [now |-> 0, db |-> dbInit, rm |-> {},
    sess |-> [b \in Browsers |-> EmptySess], cookie |-> [b \in Browsers |-> 0],
    iss |-> [k \in Kinds |-> 0],
-   scPhone |-> {}]       \* ghost: <<sms code id, phone id it was sent to>>
+   scPhone |-> {},       \* ghost: <<sms code id, phone id it was sent to>>
+   spent |-> {}]         \* ghost: <<kind, id>> of every secret that has ever stopped being live
 
 \* a step/event record: every field always present
 E0 == [act |-> "none", b |-> NONE, pid |-> NONE, pw |-> 0, tok |-> 0, rm |-> FALSE,
@@ -596,6 +597,19 @@ Env(S, c, e) ==
 EnvActs == {"Tick", "AdminLock", "AdminUnlock", "RestartConfirm", "UpdatePassword",
             "StealCookie", "DropSession", "JunkCookie", "AppKey"}
 
-Apply(S, c, e) == IF e.act \in EnvActs THEN Env(S, c, e) ELSE Request(S, c, e)
+\* the secrets that are live (usable) in a state; whatever leaves this set is
+\* dead for good (consumed, superseded, cleared, revoked) and recorded in `spent`
+Live(S) ==
+  UNION { {<<"otp", t>> : t \in S.db[u].otps} \cup {<<"rc", S.db[u].rcg * 100 + i>> : i \in S.db[u].rcLeft}
+          \cup (IF S.db[u].cTok >= 1 THEN {<<"ct", S.db[u].cTok>>} ELSE {})
+          \cup (IF S.db[u].rTok >= 1 THEN {<<"rt", S.db[u].rTok>>} ELSE {}) : u \in Pids }
+  \cup {<<"rm", t.id>> : t \in S.rm}
+  \cup UNION { (IF S.sess[b].smsCode >= 1 THEN {<<"sc", S.sess[b].smsCode>>} ELSE {})
+               \cup (IF S.sess[b].oState >= 1 THEN {<<"os", S.sess[b].oState>>} ELSE {})
+               \cup (IF S.sess[b].tfaTok >= 1 THEN {<<"tt", S.sess[b].tfaTok>>} ELSE {}) : b \in Browsers }
+
+Apply(S, c, e) ==
+  LET r == IF e.act \in EnvActs THEN Env(S, c, e) ELSE Request(S, c, e)
+  IN  [r EXCEPT !.st.spent = S.spent \cup (Live(S) \ Live(r.st))]
 
 =============================================================================
